@@ -465,7 +465,9 @@ func cmpInt(a int64, op string, b int64) bool {
 // (string ordering, duration literal against an attribute, …): the evaluator refuses them.
 type ErrUnsupportedTerm struct{ Why string }
 
-func (e *ErrUnsupportedTerm) Error() string { return "reftraceql: not covered by the property: " + e.Why }
+func (e *ErrUnsupportedTerm) Error() string {
+	return "reftraceql: not covered by the property: " + e.Why
+}
 
 func (e *evaluator) term(sp *Span, t *Term) (bool, error) {
 	if t.Scope == "" && t.Name == "duration" {
